@@ -169,6 +169,19 @@ func c18Measure(cs c18Case) (allocs float64, bound float64, skipped bool) {
 		return b.AllocsChannel(C-1, c18Runs), 0, false
 	case "slice":
 		b := mkBuf(d, L)
+		switch cs.Variant {
+		case 1: // the window ends beyond the length, inside the spare capacity
+			b = dyn.Alloc(d, al(C, L/2, L+2))
+			return b.AllocsSlice(0, L+1, c18Runs), 1, false
+		case 2: // the window begins beyond the length
+			b = dyn.Alloc(d, al(C, L/2, L+2))
+			return b.AllocsSlice(L/2+1, L+2, c18Runs), 1, false
+		case 3: // an inner window
+			if L < 2 {
+				return 0, 0, true
+			}
+			return b.AllocsSlice(1, L-1, c18Runs), 1, false
+		}
 		return b.AllocsSlice(0, L, c18Runs), 1, false
 	case "pool":
 		p := dyn.NewPool(d, al(C, 0, L))
@@ -242,6 +255,13 @@ func init() {
 								}
 								if op == "append" {
 									cases = append(cases, c18Case{Op: op, S: tn(t), D: tn(t), C: C, L: L, Spare: spare, Variant: 1})
+								}
+								if op == "slice" {
+									for v := 1; v <= 3; v++ {
+										if v == 3 || !spare {
+											cases = append(cases, c18Case{Op: op, S: tn(t), D: tn(t), C: C, L: L, Spare: spare, Variant: v})
+										}
+									}
 								}
 								if op == "pool" {
 									cases = append(cases, c18Case{Op: op, S: tn(t), D: tn(t), C: C, L: L, Variant: 1}, c18Case{Op: op, S: tn(t), D: tn(t), C: C, L: L, Variant: 2})
